@@ -230,7 +230,7 @@ fn pnm_roundtrip_subviews(r: &mut Report, nested: bool, only: Option<(u32, u32, 
     }
 }
 
-const SEPS: [&str; 6] = [" ", "\n", "\t", "\r", " #c\n", "\n# 7 7 7\n"];
+const SEPS: [&str; 8] = [" ", "\n", "\t", "\r", " #c\n", "\n# 7 7 7\n", "\x0c", " # old\rmac 9 9\n"];
 fn sep_strings() -> Vec<String> {
     let mut v: Vec<String> = SEPS.iter().map(|s| s.to_string()).collect();
     for a in SEPS { for b in SEPS { v.push(format!("{a}{b}")); } }
@@ -245,7 +245,7 @@ fn pnm_text_binary(idx: u64, r: &mut Report, imgs: &[(u32, u32, Vec<[u8; 3]>)], 
     let term = [b"\n", b" ", b"\t", b"\r"][term as usize];
     let (s1, s2, s3) = (&seps[s1 as usize], &seps[s2 as usize], &seps[s3 as usize]);
     // sample separator for text formats: one of the singles, or cycling through all seps
-    let sample_sep = |k: usize| -> &str { if sdat < 6 { SEPS[sdat as usize] } else { &seps[(k * 5 + 3) % seps.len()] } };
+    let sample_sep = |k: usize| -> &str { if sdat < 6 { SEPS[[0usize, 1, 2, 3, 6, 5][sdat as usize]] } else { &seps[(k * 5 + 3) % seps.len()] } };
     for gray in [false, true] {
         r.eval();
         let pxs: Vec<[u8; 3]> = if gray { px.iter().map(|p| [p[0]; 3]).collect() } else { px.clone() };
@@ -362,7 +362,7 @@ fn run_pnm(cfg: &Cfg) -> ! {
     let alpha = [b'P', b'1', b'2', b'3', b'5', b'6', b'0', b'9', b' ', b'\n', b'#', 0xFF];
     rep.merge(all_strings(cfg, &alpha, if quick { 5 } else { 7 }, |s, r| pnm_totality(s, r, "strings")));
     // headers x payloads
-    let dimvals = ["0", "1", "2", "3", "255", "65535", "65536", "4294967295", "4294967296", "99999999999", "-1", "1.0", ""];
+    let dimvals = ["0", "1", "2", "3", "255", "65535", "65536", "4294967295", "4294967296", "99999999999", "18446744073709551615", "18446744073709551616", "18446744073709551617", "340282366920938463463374607431768211457", "-1", "1.0", ""];
     let payloads: Vec<Vec<u8>> = {
         let a = [0u8, b'1', b' ', 0xFF];
         let mut v = vec![vec![]];
@@ -454,7 +454,7 @@ fn obj_totality(bytes: &[u8], r: &mut Report, kind: &str) {
 // parsing via f64 and casting rounds twice and lands one ulp low; expected values are the correctly rounded ones)
 const COORDS: [(&str, f32); 14] = [("0", 0.0), ("1", 1.0), ("-2.5", -2.5), ("1e3", 1000.0), ("-1.0e0", -1.0), ("+.5", 0.5), ("0.03", 0.03), ("1.23e-2", 0.0123), ("1.5E3", 1500.0), ("2E+1", 20.0), ("-4.E-1", -0.4),
     ("1.0000000596046448", f32::from_bits(0x3f800001)), ("1.6777217000000000000001e7", f32::from_bits(0x4b800001)), ("-8388608.5000000000000001", f32::from_bits(0xcb000001))];
-const DECOR: [&str; 10] = ["", "  ", "\t", "trail", "blank", "comment", "icomment", "cr", "longcomment", "deepindent"];
+const DECOR: [&str; 11] = ["", "  ", "\t", "trail", "blank", "comment", "icomment", "cr", "longcomment", "deepindent", "bscomment"];
 
 /// One grammar-generated file. idx encodes (V, faces, form, layout, decoration, line ending, final newline).
 fn obj_grammar(idx: u64, r: &mut Report, maxv: usize, maxf: usize) {
@@ -473,7 +473,8 @@ fn obj_grammar(idx: u64, r: &mut Report, maxv: usize, maxf: usize) {
     let coord_rot = take(COORDS.len() as u64) as usize;
     if i != 0 { return; } // out of family
     // the two scale decorations (3000-character lines) only with the plainest remaining choices
-    if dec >= 8 && (coord_rot != 0 || crlf || !final_nl || nf > 1) { return; }
+    if (dec == 8 || dec == 9) && (coord_rot != 0 || crlf || !final_nl || nf > 1) { return; }
+    if dec == 10 && coord_rot > 2 { return; }
     r.eval();
     let eol = if crlf { "\r\n" } else { "\n" };
     let mut vlines = vec![];
@@ -516,6 +517,8 @@ fn obj_grammar(idx: u64, r: &mut Report, maxv: usize, maxf: usize) {
             // scale: a 3000-character comment line ending in something that looks like a vertex, and 2000 blanks of indentation
             "longcomment" => { text.push('#'); for _ in 0..1500 { text.push_str("x "); } text.push_str(" v 7 7 7"); text.push_str(eol); text.push_str(l); }
             "deepindent" => { for _ in 0..2000 { text.push(' '); } text.push_str(l); }
+            // a comment line whose last byte is a backslash (a Windows path): it ends at its line break like any other comment
+            "bscomment" => { text.push_str("# exported to C:\\models\\"); text.push_str(eol); text.push_str(l); }
             ws => { text.push_str(ws); text.push_str(l); }
         }
         if k + 1 < lines.len() || final_nl { text.push_str(eol); }
